@@ -170,6 +170,16 @@ fn types_equal_inner(
         (a_params, b_params)
     };
 
+    // Inside a struct or enum only its own generics can explain differing type IDs (its generic
+    // arguments have been lined up against the enclosing generics already, see below). Carrying
+    // the enclosing generics along would let an unrelated ID inside the nested type be mistaken
+    // for one of them whenever the IDs happen to coincide.
+    let calc_own_params = || {
+        let a_params = GenericsList::empty().extend(&a_ty.type_params);
+        let b_params = GenericsList::empty().extend(&b_ty.type_params);
+        (a_params, b_params)
+    };
+
     // If both IDs map to same generic param, then we'll assume equal. If they don't
     // then we need to keep checking other properties (eg Vec<bool> and Vec<u8> will have
     // different type IDs but may be the same type if the bool+u8 line up to generic params).
@@ -260,11 +270,11 @@ fn types_equal_inner(
     // Check that the shape of the types and contents are equal.
     match (&a_ty.type_def, &b_ty.type_def) {
         (TypeDef::Composite(a), TypeDef::Composite(b)) => {
-            let (a_params, b_params) = calc_params();
+            let (a_params, b_params) = calc_own_params();
             fields_equal(&a.fields, &a_params, &b.fields, &b_params)
         }
         (TypeDef::Variant(a), TypeDef::Variant(b)) => {
-            let (a_params, b_params) = calc_params();
+            let (a_params, b_params) = calc_own_params();
             a.variants.len() == b.variants.len()
                 && a.variants.iter().zip(b.variants.iter()).all(|(a, b)| {
                     a.name == b.name
